@@ -8,7 +8,7 @@ TB = "Trusted base: Go toolchain/runtime, stdlib SHA-1/256/512 compression funct
 CHECKS = {
  "C01": dict(
   technique="runtime reference-model monitor at the API boundary + HMAC-constructor hook (observes key/message, substitutes the digest to drive the formatting stage)",
-  text="Every GenerateHOTP execution of a seeded boundary/random workload is compared byte-for-byte with an independent RFC 4226 model (own HMAC, big-integer modulus); unsupported digits/hash values must yield an error; Param fields generation does not use (Skew, Period) take arbitrary values; through the verif hook the monitor also observes the exact (key, message) of the HMAC and pushes chosen 31-bit values through the real truncation/modulus/formatting code. Exploration, not enumeration of 2^64 counters or 2^31 values.",
+  text="Every GenerateHOTP execution of a seeded boundary/random workload is compared byte-for-byte with an independent RFC 4226 model (own HMAC, big-integer modulus); unsupported digits/hash values must yield an error; Param fields generation does not use (Skew, Period) take arbitrary values; through the verif hook the monitor also observes the exact (key, message) of the HMAC and pushes chosen 31-bit values through the real truncation/modulus/formatting code. One-goroutine histories (field-shifted neighbours, keys differing in one byte, adjacent-counter walks) and the js/wasm build's own copy of the derivation (compiled natively through an overlay) are judged by the same oracle. Exploration, not enumeration of 2^64 counters or 2^31 values.",
   design="7/C01"),
  "C02": dict(
   technique="runtime reference-model monitor (differential against independent HOTP at floor(unix/period)) over generated instants, zones, monotonic readings and periods",
@@ -46,7 +46,7 @@ CHECKS = {
   design="7/C09"),
  "C10": dict(
   technique="crash/hang monitor: hostile-argument workload over the whole exported API in child processes (plain, -race/checkptr, -asan), recover() per call, call log written before each call, derivation cut-off hook",
-  text="Every exported function and method (listed at run time from /repo with go/parser; Must* helpers excluded by the property) is called with hostile values from the property's domain sketch; a recovered panic, a process-fatal error attributed through the pre-call log, or unbounded work (hook cut-off / allocation-corroborated hang) is a violation. A wall-clock watchdog firing alone is inconclusive.",
+  text="Every exported function and method (listed at run time from /repo with go/parser; Must* helpers excluded by the property) is called with hostile values from the property's domain sketch (string arguments of one call are often derived from each other); the exported default TimeCounterFunc and the operations that exist only in the js/wasm build (DeriveRFC4226Wasm, ValidateOTPWasm, compiled natively through an overlay) are driven too; a recovered panic, a process-fatal error attributed through the pre-call log, or unbounded work (hook cut-off / allocation-corroborated hang) is a violation. A wall-clock watchdog firing alone is inconclusive.",
   design="7/C10"),
  "C11": dict(
   technique="Go race detector + differential against the sequential reference under stress: per-configuration -race child processes, yield injection between pool Get and Put (HMAC-constructor hook), adversarial pool user, GC storms, retained-string re-check",
@@ -67,15 +67,15 @@ CHECKS = {
   design="7/C14"),
  "C15": dict(
   technique="runtime differential monitor: library registry/parser versus an independent strict RFC 6287 suite-name parser; registry exhaustive, grammar enumerated",
-  text="Every advertised name is instantiated and compared field by field with what an independent parser says the name means (list / known-suite test / lookup / registry map must agree); every string of the 1 442 880-string grammar (thorough: all; quick: every 11th + boundaries) must be rejected or accepted with exactly its meaning and report itself as its name; case variants of grammar strings are judged against a case-folding reference in a repeated sequential history (each spelling must report its own name); many-digit numeric fields must be rejected or represented exactly; ~350 malformed strings must be rejected.",
+  text="Every advertised name is instantiated and compared field by field with what an independent parser says the name means (list / known-suite test / lookup / registry map must agree); every string of the 1 442 880-string grammar (thorough: all; quick: every 11th + boundaries) must be rejected or accepted with exactly its meaning and report itself as its name; case variants of grammar strings are judged against a case-folding reference in a repeated sequential history (each spelling must report its own name); many-digit numeric fields must be rejected or represented exactly; ~350 malformed strings, single-bit flips, Unicode case-folding look-alikes of letters and time values whose product with 60/3600 overflows must be rejected (or, for numbers, represented exactly).",
   design="7/C15"),
  "C16": dict(
   technique="runtime round-trip monitor with an independent RFC 3986 decoder of the URL text",
-  text="Generated (issuer, account, secret in every accepted spelling or arbitrary text, digits 0..255, hash, period) sets go through Generate*URL(...).String(); the text is decoded by an independent percent-decoder and by ParseOTPAuthURL(url.Parse(text)); both must return the input (so escape-twice/unescape-twice cannot pass). Hand-assembled URLs with digits/period texts over -2^63..2^64+ must fail or return exactly the number written; query shapes of real links (&amp;, ';', bad escapes, repeats) are included.",
+  text="Generated (issuer, account, secret in every accepted spelling or arbitrary text, digits 0..255, hash, period) sets go through Generate*URL(...).String(); the text is decoded by an independent percent-decoder and by ParseOTPAuthURL(url.Parse(text)); both must return the input (so escape-twice/unescape-twice cannot pass). Hand-assembled URLs with digits/period texts over -2^63..2^64+ (also followed by ';', '%', '%zz') must fail or return exactly the number written, never the default in its place; URLs kept by the caller are re-rendered after later calls; query shapes of real links (&amp;, ';', bad escapes, repeats) are included.",
   design="7/C16"),
  "C17": dict(
   technique="runtime reference-model monitor: helper outputs versus independent encoders, and end-to-end OCRA codes for numeric questions versus the RFC 6287 model",
-  text="Each helper runs on boundary/random 64-bit values and on strings of length 0..300 from digit/hex/sign/letter classes and is compared with an independent encoder (value-exact, or error / documented panic for malformed text); HexInputToOCRA over all 3^5 valid/invalid/empty combinations; decimal questions of every length 1..64 plus structured values (sums of few powers of 2/10/16, byte/word aligned) through the helper and GenerateOCRA must equal the RFC value.",
+  text="Each helper runs on boundary/random 64-bit values and on strings of length 0..300 from digit/hex/sign/letter classes and is compared with an independent encoder (value-exact, or error / documented panic for malformed text; overlong hex timestamps and signed questions by a two-answer rule); sequential fault / normalisation-neighbour histories per helper; HexInputToOCRA over all 3^5 valid/invalid/empty combinations; decimal questions of every length 1..64 plus structured values (sums of few powers of 2/10/16, byte/word aligned) through the helper and GenerateOCRA must equal the RFC value.",
   design="7/C17"),
  "C18": dict(
   technique="black-box differential monitor on the real server binary over loopback: each HTTP response versus the in-process library call with exactly the request's parameters and versus the independent reference model (thorough: also a -race build of the server)",
@@ -84,13 +84,13 @@ CHECKS = {
   design="7/C18"),
  "C19": dict(
   technique="black-box hostile-input monitor on the real server binary with per-request CPU accounting (/proc/<pid>/stat) and interleaved reference-checked probe requests; liveness restated as bounded progress",
-  text="A seeded shuffle of hostile requests (broken JSON, every field x every JSON type, numbers beyond 64-bit limits, skew/period extremes, unknown/contradictory suites, oversized bodies, large echoed fields, every method x path, raw TCP fragments) is sent sequentially (server CPU time attributed per request: > 2 CPU-s is a violation) and on 32 connections; every response must be complete, 2xx only with the endpoint's success object; refused skews must not accept; probes judged by the C18 oracle (including large-response probes in flight with the hostile traffic) must stay correct; a well-formed request left unanswered twice while GET / answers is a violation; the process must stay alive. Unbounded 'eventually' is not decidable by a run; a timeout with an idle server is inconclusive.",
+  text="A seeded shuffle of hostile requests (broken JSON, every field x every JSON type, numbers beyond 64-bit limits, skew/period extremes, unknown/contradictory suites, oversized bodies, large echoed fields, every method x path, raw TCP fragments) is sent sequentially (server CPU time attributed per request: > 2 CPU-s is a violation) and on 32 connections; every response must be complete, 2xx only with the endpoint's success object; refused skews must not accept; probes judged by the C18 oracle (including large-response probes in flight with the hostile traffic) must stay correct; for ten request classes four equal batches are sent and the server's resident memory (/proc/<pid>/status) is read after each: steady growth per batch is a violation (something kept per request for good); a well-formed request left unanswered twice while GET / answers is a violation; the process must stay alive. Unbounded 'eventually' is not decidable by a run; a timeout with an idle server is inconclusive.",
   note="Trusted: Linux /proc CPU accounting (100 Hz ticks), Go net/http client. Work is measured in CPU time, not latency, so machine load cannot raise an alarm.",
   design="7/C19"),
  "C20": dict(
   technique="black-box differential monitor on the freshly built wasm module under Node 20 (through globalThis and through the package's exported object, by name) + native overlay build of the binding's Go sources",
-  text="otp.wasm is built from the working tree into a scratch copy of otp-js and driven under Node with a generated case list over the property's common domain; answers through both access paths are compared per exported name with the native library and the reference model (codes, verdicts at every window distance and for hostile code strings, timestamps near the epoch with the native verdict as oracle, URLs); numbers with a fractional part on any numeric argument must give the integer part's answer or 'error:…'; malformed calls (every argument position x hostile JS values, too few/many arguments, range errors) must return 'error:…' and are followed by a known-answer probe; a thrown exception or missing result (Go runtime died) is a violation. The same Go sources are compiled natively through an overlay for a 10x larger differential.",
-  note="Trusted: Node 20 + wasm_exec.js of the toolchain, reference models. The committed otp-js/lib/otp.wasm artefact is not what is checked.",
+  text="otp.wasm is built from the working tree into a scratch copy of otp-js and driven under Node with a generated case list over the property's common domain; answers through both access paths are compared per exported name with the native library and the reference model (codes, verdicts at every window distance and for hostile code strings, timestamps near the epoch with the native verdict as oracle, URLs); numbers with a fractional part on any numeric argument must give the integer part's answer or 'error:…'; malformed calls (every argument position x hostile JS values, too few/many arguments, range errors) must return 'error:…' and are followed by a known-answer probe; a thrown exception or missing result (Go runtime died) is a violation. Hostile values cover every JS type (BigInt, Symbol, function, Date, typed array, boxed primitives); the driver reloads the module after a death. The same Go sources are compiled natively through an overlay for a 10x larger differential, and the package as committed (index.js + committed lib/otp.wasm) is driven with a reduced list against the same oracle.",
+  note="Trusted: Node 20 + wasm_exec.js of the toolchain, reference models.",
   design="7/C20"),
 }
 
